@@ -25,8 +25,8 @@ pub const TMPLS: &[Tmpl] = &[
     Tmpl { query: "(return_statement (_)+ @vals) @ret", caps: &[("vals", K::ListSyn, ""), ("ret", K::Syn, "ret")] },
 ];
 
-pub const SCAN_REGEXES: &[&str] = &["([a-z]+)", "([0-9])", "(_|-)", "s([0-9]?)", "(a|e|i|o|u)+", "\\\\(", "([a-z])([a-z])", "[^a-z]", "f(o)?o", "x$", "^d", "^[0-9]", "^[a-z]", "\\\\b[a-z]", "[0-9]$", "^(_|-)", " "];
-pub const SCAN_SUBJECTS: &[&str] = &["a1", "a1b2", "x-1 y", "9lives", "ab_cd-ef", "f(x)", "s1 s2", "héllo_1"];
+pub const SCAN_REGEXES: &[&str] = &["([a-z]+)", "([0-9])", "(_|-)", "s([0-9]?)", "(a|e|i|o|u)+", "\\\\(", "([a-z])([a-z])", "[^a-z]", "f(o)?o", "x$", "^d", "^[0-9]", "^[a-z]", "\\\\b[a-z]", "[0-9]$", "^(_|-)", " ", "(a)?(b)", "(?:([a-z]):)?([a-z])=([a-z]);", "(x)|(y)"];
+pub const SCAN_SUBJECTS: &[&str] = &["a1", "a1b2", "x-1 y", "9lives", "ab_cd-ef", "f(x)", "s1 s2", "héllo_1", "fo foo", "b ab", "k=v;x:k=v;", "y x"];
 
 #[derive(Clone)]
 pub struct GenOpts {
@@ -100,7 +100,7 @@ impl<'a> Gen<'a> {
             K::Syn => self.syn(local).unwrap_or_else(|| "@__none".into()),
             K::Str => match self.rng.below(if depth > 2 || !lib { 2 } else { 7 }) {
                 0 => format!("\"s{}\"", self.rng.below(4)),
-                1 => if self.in_scan > 0 { format!("${}", self.rng.below(2)) } else { "\"lit\"".into() },
+                1 => if self.in_scan > 0 { format!("${}", if self.rng.chance(25) { 2 + self.rng.below(2) } else { self.rng.below(2) }) } else { "\"lit\"".into() },
                 2 => match self.syn(local) { Some(s) => format!("(source-text {})", s), None => "\"x\"".into() },
                 3 => match self.syn(local) { Some(s) => format!("(node-type {})", s), None => "\"y\"".into() },
                 4 => format!("(format \"{{}}-{{}}\" {} {})", self.expr(K::Int, d, local), self.expr(K::Str, d, local)),
@@ -280,6 +280,7 @@ pub fn gen_program(rng: &mut Rng, opts: &GenOpts) -> Program {
         for (sk, name, k) in new_scoped { if opts.inherit && rng.chance(15) { inherit_names.push(name.clone()); } scoped.entry(sk).or_default().push((name, k)); }
         stanzas.push(format!("{} {{\n{}}}\n", t.query, body));
     }
+    if opts.allow_scan && rng.chance(25) { if let Some(st) = crate::c10::gen_scan_stanza(rng) { let pos = rng.below(stanzas.len() + 1); stanzas.insert(pos, st); } }
     for nme in inherit_names { preamble.push(format!("inherit .{}", nme)); }
     Program { preamble, stanzas, supplied }
 }
